@@ -12,7 +12,8 @@ by the check's policy(req) callback once the encapsulated heads are known:
     kind    '204' | '200' | 'status' | 'close' | 'garbage'
     when    'early' : act as soon as the heads (and the preview, if one was announced) have arrived
             'late'  : read the whole message first (answering a preview with `100 Continue`)
-    kind '200':    http_head (bytes), http_body (bytes | None = null-body), section ('res'|'req'),
+    kind '200':    http_head (bytes), http_body (bytes | None = null-body), section ('res'|'req'), echo (bool: the body
+                   sent is the body received),
                    chunks (list of sizes | None), cut (None | 'before-head' | 'mid-head' | 'mid-body' | 'before-last'),
                    cut_how ('fin' | 'rst')
     kind 'status': code, reason
@@ -499,13 +500,16 @@ class IcapServer:
             if beh.get('then') == 'close':
                 self._close(ic)
         elif kind == '200':
-            parts = resp_200_parts(beh['section'], beh['http_head'], beh.get('http_body'), beh.get('chunks'))
+            body = beh.get('http_body')
+            if beh.get('echo') and body is not None:
+                body = req.body                 # send the message back unmodified
+            parts = resp_200_parts(beh['section'], beh['http_head'], body, beh.get('chunks'))
             full = parts[0] + parts[1] + b''.join(parts[2]) + parts[3]
             cut = beh.get('cut')
             if cut is None:
                 self._send(ic, full, '200-complete')
             else:
-                off = cut_offset(parts, cut, beh.get('http_body'))
+                off = cut_offset(parts, cut, body)
                 self._send(ic, full[:off], '200-cut-%s@%d/%d' % (cut, off, len(full)))
                 self._close(ic, beh.get('cut_how', 'fin'))
         else:
